@@ -133,8 +133,13 @@ class Codec:
 
         return fixmsg + SEP
 
-    def _frame_end(self, msg: str) -> int:
+    def _frame_end(self, msg: str, declared: bool = False) -> int:
         """Finds the end of the first message of `msg` using BodyLength and CheckSum.
+
+        Args:
+            msg: data which begins with BeginString
+            declared: return the position BodyLength points at without looking at
+                      CheckSum field
 
         Returns: position after the message, -1 if BodyLength doesn't lead to
                  CheckSum(10=ddd<SOH>) field (or it has not arrived yet)
@@ -152,6 +157,8 @@ class Codec:
         if not body_len.isdigit() or not body_len.isascii() or len(body_len) > 9:
             return -1
         i_trailer = i_body + 1 + int(body_len)
+        if declared:
+            return i_trailer + 7
         if (
             msg.startswith("10=", i_trailer)
             and msg[i_trailer - 1] == self.SOH
@@ -202,6 +209,8 @@ class Codec:
             else:
                 next_msg = len(msg)
         has_next_msg = next_msg < len(msg)
+        # Message is not complete by its own BodyLength
+        is_partial = not is_framed and self._frame_end(msg, declared=True) > len(msg)
 
         encoded_msg = rawmsg[valid_idx : next_msg + valid_idx]
 
@@ -220,6 +229,9 @@ class Codec:
             # last field is not complete: wait for the rest, or skip this message if
             #   the next one has already begun
             assert silent, "incomplete message"
+            if has_next_msg and is_partial:
+                # "8=FIX." is a part of the field value: wait for the rest
+                return (None, parsed_length, None)
             return (None, parsed_length + (next_msg if has_next_msg else 0), None)
 
         tag, value = msg[0].split("=", 1)
